@@ -1,4 +1,5 @@
 from ._potential_form import _Check_Call
+from ._common import Potential_Form_Exception
 
 
 class _Python_Potential_Function(object):
@@ -26,5 +27,10 @@ class _Python_Potential_Function(object):
   
   def __call__(self, *args):
     self._check_call(*args)
-    return self._pyfunc(*args)
+    try:
+      return self._pyfunc(*args)
+    except TypeError as e:
+      # functions taking a variable number of arguments (e.g. pymath.log) are not covered by the check above
+      raise Potential_Form_Exception("'{}' cannot be called with {} argument(s): {}".format(
+        self._potential_form_tuple.signature.label, len(args), e))
 
